@@ -38,7 +38,7 @@ RULE = ("history = <= max_ops seeded operations over up to 3 renderables and 3 l
         "faults = every k-th _render_ call x {RuntimeError, StopIteration} and every draw write "
         "x KeyboardInterrupt; non-trivial = the history contains a fault, an early close or a "
         "dropped reference; distinct = hash of (history, fault)")
-PROBES = ["render_fault_in_first_animation_frame", "size_validation_failed_in_draw",
+PROBES = ["reentrant_close_during_render", "render_fault_in_first_animation_frame", "size_validation_failed_in_draw",
           "close_during_dummy_frame_state", "caller_owned_data_left_unfinalized",
           "finalized_by_garbage_collection", "stopiteration_from_definite_source",
           "double_close", "double_finalize", "interrupted_draw_write", "iterator_exhausted"]
@@ -151,7 +151,7 @@ def run(ch, ctx, fault=None):
             op = ch.weighted("op", [
                 (2, "str"), (2, "render"), (3, "draw"), (3, "iter"), (2, "from_data"),
                 (1, "init_render_keep"), (2, "init_render_final"), (1, "from_finalized"),
-                (8, "next"), (2, "seek"), (2, "close"), (1, "finalize"),
+                (8, "next"), (1, "next_reentrant_close"), (2, "seek"), (2, "close"), (1, "finalize"),
                 (2, "drop"), (1, "collect"),
             ])
             t0 = hooks.next_token
@@ -276,6 +276,41 @@ def run(ch, ctx, fault=None):
                     except BaseException:
                         lv.closed = True
                         raise
+                elif op == "next_reentrant_close":
+                    # close() arriving while a frame is being rendered (re-entrantly, or from
+                    # another thread): the generator is executing, the close cannot take
+                    # effect - and must not half take effect either
+                    cands = [x for x in live if not x.closed]
+                    if not cands:
+                        continue
+                    lv = ch.pick("live", cands)
+                    cands = None             # do not keep iterators alive from this frame
+                    desc = "next(%s) with close() called from inside the render" % lv.desc
+                    outcome = []
+
+                    def reenter(lv=lv):
+                        try:
+                            lv.it.close()
+                            outcome.append("closed")
+                        except ValueError as e:
+                            outcome.append("ValueError")
+                    hooks.on_render = reenter
+                    try:
+                        next(lv.it)
+                        lv.started = True
+                    except StopIteration:
+                        lv.closed = True
+                    except BaseException:
+                        lv.closed = True
+                        raise
+                    finally:
+                        hooks.on_render = None
+                        reenter = None       # the closure keeps the iterator alive
+                    desc += " -> %s" % (outcome or ["render not reached (cached)"])[0]
+                    ctx.probe("reentrant_close_during_render")
+                    if not lv.closed:
+                        # still open: it must still iterate or be closable exactly once later
+                        pass
                 elif op == "seek":
                     if not live:
                         continue
